@@ -666,7 +666,7 @@ def oracle(scn, r):
         # nothing was stopped, removed or disconnected: every call must have been served
         calls = sorted((c for t in scn["threads"] for c in t), key=lambda c: c["id"])
         for c, v in zip(calls, r["vec"]):
-            exp = "l" if (scn["prelocked"] and c["kind"] not in ("is_locked",)) else {"f": "v", "boom": "e", "bexc": "e", "is_locked": "v"}.get(c["kind"], "v")
+            exp = "l" if (scn["prelocked"] and c["kind"] not in ("is_locked",)) else {"value": "v", "exc": "e"}[KINDS[c["kind"]][0]]
             if v != exp:
                 out.append(("existing-object-refused-call", f"call {c} ended with {v}, expected {exp}"))
     return out
